@@ -95,3 +95,53 @@ theorem render_special_only_in_markup (out : List Html) (hw : ∀ h ∈ out, WfH
   exact hw _ hh
 
 end TantivyModel.Snip
+
+namespace TantivyModel.Snip
+open TantivyModel.Tok
+
+theorem taggedAux_escape_none (t : Text) (r : List Html) :
+    taggedAux none (escape t ++ r) = taggedAux none r := by
+  induction t with
+  | nil => rfl
+  | cons c t ih =>
+    simp only [escape, List.map_cons, List.cons_append] at *
+    split <;> simp only [taggedAux] <;> exact ih
+
+theorem taggedAux_escape_some (t : Text) (acc : List Nat) (r : List Html) :
+    taggedAux (some acc) (escape t ++ r) = taggedAux (some (acc ++ t.map Cp.code)) r := by
+  induction t generalizing acc with
+  | nil => simp [escape]
+  | cons c t ih =>
+    simp only [escape, List.map_cons, List.cons_append] at *
+    split <;> simp only [taggedAux] <;> rw [ih] <;> simp
+
+/-- the tags of `to_html` enclose exactly the collapsed highlight ranges of the fragment -/
+theorem toHtmlAux_tagged (frag : Text) : ∀ (hl : List (Nat × Nat)) (st : Nat) (out : List Html),
+    toHtmlAux frag st hl = some out →
+    tagged out = hl.map (fun r => (sliceFrom 0 frag r.1 r.2).map Cp.code) := by
+  intro hl
+  induction hl with
+  | nil =>
+    intro st out h
+    simp only [toHtmlAux, Option.map_eq_some_iff] at h
+    obtain ⟨t, _, rfl⟩ := h
+    have := taggedAux_escape_none t []
+    simpa [tagged, taggedAux] using this
+  | cons r rest ih =>
+    intro st out h
+    obtain ⟨a, b⟩ := r
+    simp only [toHtmlAux] at h
+    split at h
+    · rename_i x y z hx hy hz
+      cases h
+      obtain ⟨_, _, _, rfl⟩ := sliceB_some hy
+      have hz' := ih b z hz
+      unfold tagged at *
+      simp only [List.append_assoc, List.map_cons]
+      rw [taggedAux_escape_none]
+      simp only [List.singleton_append, taggedAux]
+      rw [taggedAux_escape_some]
+      simp only [List.singleton_append, List.nil_append, taggedAux, hz']
+    · cases h
+
+end TantivyModel.Snip
